@@ -65,10 +65,12 @@ impl DebugServer {
 
     pub fn join(self) -> MosResult<()> {
         self.shutdown.store(true, Ordering::Relaxed);
-        self.thread
-            .unwrap()
-            .join()
-            .expect("Could not join debugger thread");
+        // (when the debugger thread has panicked, that has been reported already. It is no reason not to end normally.)
+        if let Some(thread) = self.thread {
+            if thread.join().is_err() {
+                log::error!("The debugger thread has ended abnormally");
+            }
+        }
         Ok(())
     }
 }
@@ -130,7 +132,8 @@ struct LaunchRequestHandler {}
 impl Handler<LaunchRequest> for LaunchRequestHandler {
     fn handle(&self, conn: &mut DebugSession, args: LaunchRequestArguments) -> MosResult<()> {
         conn.no_debug = args.no_debug.unwrap_or_default();
-        let cfg = conn.lock_lsp().config().unwrap();
+        // (without a usable mos.toml the defaults apply, like they do for the language server itself)
+        let cfg = conn.lock_lsp().config().unwrap_or_default();
 
         let root = PathBuf::from(args.workspace.clone());
         let src_path = root.join(PathBuf::from(&cfg.build.entry));
@@ -382,7 +385,8 @@ impl Handler<VariablesRequest> for VariablesRequestHandler {
                     Variable::new("C - Carry", fmt(flags & 1)),
                 ]
             }
-            _ => panic!(),
+            // (a reference we never handed out)
+            _ => vec![],
         };
 
         let response = VariablesResponse { variables };
@@ -450,7 +454,15 @@ impl Handler<SetBreakpointsRequest> for SetBreakpointsRequestHandler {
         }
 
         let source = args.source.clone();
-        let source_path = args.source.path.as_ref().unwrap().clone();
+        let source_path = match args.source.path.as_ref() {
+            Some(path) => path.clone(),
+            None => {
+                // (a source that is not a file: there is nothing we could break on)
+                return Ok(SetBreakpointsResponse {
+                    breakpoints: vec![],
+                });
+            }
+        };
 
         let line_column_pcs = args
             .breakpoints
@@ -458,13 +470,17 @@ impl Handler<SetBreakpointsRequest> for SetBreakpointsRequestHandler {
             .into_iter()
             .map(|bp| {
                 let line = if conn.lines_start_at_1 {
-                    bp.line - 1
+                    bp.line.saturating_sub(1)
                 } else {
                     bp.line
                 };
-                let column = bp
-                    .column
-                    .map(|c| if conn.columns_start_at_1 { c - 1 } else { c });
+                let column = bp.column.map(|c| {
+                    if conn.columns_start_at_1 {
+                        c.saturating_sub(1)
+                    } else {
+                        c
+                    }
+                });
 
                 // A single location may result in multiple breakpoints
                 let pcs = match conn.codegen() {
@@ -642,7 +658,19 @@ impl Handler<CompletionsRequest> for CompletionsRequestHandler {
         // gets the current symbol being completed.
         // assumes space separates each expression
         let curr_completion = {
-            let (beginning, _) = args.text.split_at(args.column);
+            // (the column is a position in characters, possibly counted from 1, and possibly behind the text)
+            let column = if conn.columns_start_at_1 {
+                args.column.saturating_sub(1)
+            } else {
+                args.column
+            };
+            let split_idx = args
+                .text
+                .char_indices()
+                .nth(column)
+                .map(|(idx, _)| idx)
+                .unwrap_or(args.text.len());
+            let (beginning, _) = args.text.split_at(split_idx);
             match beginning.rsplit_once(' ') {
                 Some((_, text)) => text,
                 None => beginning,
@@ -807,8 +835,16 @@ impl DebugSession {
     pub fn start(&mut self) -> MosResult<()> {
         log::info!("DebugSession listening on port {}...", self.port);
         let debug_connection =
-            DebugConnection::tcp(&format!("127.0.0.1:{}", self.port), &self.shutdown)
-                .unwrap_or_else(|e| panic!("Couldn't listen on port {}: {}", self.port, e));
+            match DebugConnection::tcp(&format!("127.0.0.1:{}", self.port), &self.shutdown) {
+                Ok(debug_connection) => debug_connection,
+                Err(e) => {
+                    // There will be no debugging, but that is no reason to bring down the language server (now, or
+                    // with a panic when it shuts down)
+                    log::error!("Couldn't listen on port {}: {}", self.port, e);
+                    self.shutdown.store(true, Ordering::Relaxed);
+                    return Ok(());
+                }
+            };
         let debug_connection = match debug_connection {
             Some((debug_connection, _)) => debug_connection,
             None => {
@@ -964,7 +1000,8 @@ impl DebugSession {
                 }
                 (MachineRunningState::Running, MachineRunningState::Running) => (),
                 (MachineRunningState::Launching, _) | (_, MachineRunningState::Launching) => {
-                    panic!("Should never receive any machine events during launch.");
+                    // (e.g. a client that sends 'continue' before it has finished configuring)
+                    log::debug!("Ignoring a machine event during launch.");
                 }
             },
             MachineEvent::Message { output, location } => {
